@@ -884,7 +884,16 @@ const STALE_HOW: [&str; 6] = ["peer-reset", "both-finished", "peer-finished-only
 const STALE_ACT: [&str; 3] = ["drop", "shutdown-drop", "write-drop"];
 
 fn c06_stale_case() -> impl Strategy<Value = StaleCase> {
-    (opts(true), 0u8..6, 0u8..3, any::<bool>(), any::<bool>(), schedule(80)).prop_map(|(mut o0, how, action, local_open, old_reads, schedule)| {
+    stale_case_of(vec![0, 1, 2, 3, 4, 5])
+}
+/// The part of the stale-handle family in which the OLD stream did not end by a Reset (it was finished by both ends, by one end, or
+/// is still live): used by C02 and C05 as well - a second stream on the id of a stream whose handle the application still holds must
+/// either be refused or deliver its bytes intact and reach its own, proper end-of-stream whatever happens to the old handle.
+pub fn finished_handle_case() -> impl Strategy<Value = StaleCase> {
+    stale_case_of(vec![1, 2, 3, 5])
+}
+fn stale_case_of(hows: Vec<u8>) -> impl Strategy<Value = StaleCase> {
+    (opts(true), prop::sample::select(hows), 0u8..3, any::<bool>(), any::<bool>(), schedule(80)).prop_map(|(mut o0, how, action, local_open, old_reads, schedule)| {
         o0.rwnd = o0.rwnd.clamp(3, 8);
         let id = 0x42u32;
         // old stream, A's end (acceptor end of stream 0)
